@@ -87,7 +87,7 @@ def run(chk):
     chk.rule = ("(T1) operation sequences (add each real connection once, remove by peer, remove by connection, subscribe, list) over 2-3 peers with 1-3 real quinn "
                 "connections each (both origins), applied to the real ActivePeers; after every operation result, drained events, locally closed connections and the listing "
                 "(peer:connection) are compared with ActivePeers.v; thorough adds every sequence of length <= 4 over the alphabet of a fixed setup; "
-                "(T2) 8 threads issue random operations, the H4 trace gives the linearisation which the model replays; (T3) whole networks on the fabric (dials, disconnects, restarts, partitions): every ActivePeers instance's recorded operations with the pre-state each saw replayed on the model, event log and final listing compared; (S) real-time stress: subscriptions taken while two threads change the set must each be an exact change log of their own snapshot; "
+                "(T2) 8 threads issue random operations, the H4 trace gives the linearisation which the model replays; (T3) whole networks on the fabric (dials, disconnects, restarts, partitions): every ActivePeers instance's recorded operations with the pre-state each saw replayed on the model, event log and final listing compared; (B) a peer closes its connection while one of its requests is inside a handler's blocking section (real time): it must be unlisted at once; (S) real-time stress: subscriptions taken while two threads change the set must each be an exact change log of their own snapshot; "
                 "distinct = case text; non-trivial = at least one tie-break (second connection of a listed peer) occurred")
     if not chk.prepare():
         return
@@ -200,6 +200,18 @@ def run(chk):
             chk.monitor_fail("subscription stress crashed: " + a[:200], dict(case=c, impl=a))
         elif f["bad"] != "0":
             chk.monitor_fail("%s of %s subscriptions taken while the set was changing are not an exact change log of their own snapshot (first: %s)" % (f["bad"], f["subscriptions"], f["first"].replace("_", " ")), dict(case=c, impl=a))
+    # a connection closed by the remote while one of its requests is inside a handler's blocking section (real time, multi-thread
+    # runtime): the local side has seen it closed and must not list the peer, whatever that handler is doing
+    bc = ["teardown busy-close %d %d" % (6 if quick else 40, chk.rng.randrange(1 << 30))]
+    for c, a in zip(bc, run_impl("teardown", bc, shards=1, timeout=600)):
+        chk.evaluations += 1
+        chk.nontriv(c)
+        f = dict(x.split("=") for x in a.split() if "=" in x)
+        chk.count("closes-with-a-request-mid-poll", int(f.get("busy_shutdowns", 0)))
+        if "clones_left" not in f:
+            chk.monitor_fail("busy-close driver crashed: " + a[:200], dict(case=c, impl=a))
+        elif int(f["clones_left"]) > 0:
+            chk.monitor_fail("in %s of %s runs a peer was still listed 300 ms after it had closed its connection, while one of its requests was inside a handler's blocking section" % (f["clones_left"], f["busy_shutdowns"]), dict(case=c, impl=a))
     # real histories: whole networks on the fabric (dials, disconnects, restarts, partitions); every ActivePeers
     # instance's recorded operations, each with the pre-state it saw, are replayed on ActivePeers.v and the
     # subscriber's events and final listing compared with the model's
